@@ -2953,6 +2953,10 @@ class Group(System):
         """
         if self._relevance_changed():
             self._jacobian = None
+            if self._owns_approx_jac and self.pathname and not self._first_call_to_linearize:
+                # the approximations were set up (and pruned) for the previous relevance
+                self._clear_jac_caches()
+                self._setup_approx_derivs()
 
         if self._jacobian is None:
             if self._owns_approx_jac:
